@@ -425,7 +425,11 @@ func (req *SrvReq) Respond() {
 	}
 
 	if (status & reqFlush) == 0 {
-		conn.reqout <- req
+		select {
+		case conn.reqout <- req:
+		case <-conn.done:
+			// the connection is gone, nobody will take the reply
+		}
 	}
 
 	// process the next request with the same tag (if available)
